@@ -135,7 +135,7 @@ func runKScript(ops []kop, real bool) ([]string, error) {
 		defer os.RemoveAll(d)
 		root = d
 	}
-	s := simrt.New(simrt.Config{Tape: simrt.Replay(nil, nil), MaxSteps: 1000000})
+	s := simrt.New(simrt.Config{DaemonsOK: true, Tape: simrt.Replay(nil, nil), MaxSteps: 1000000})
 	simunix.Attach(s, k)
 	var out []string
 	s.Run(func() {
